@@ -20,3 +20,25 @@ Print Assumptions C02_read_sizes_irrelevant.
 (* non-vacuity: a fixed-Huffman stream for "amd" is Done *)
 Example C02_example : status (inflate [] [75;204;77;1;0]) = Done /\ out (inflate [] [75;204;77;1;0]) = [97;109;100].
 Proof. vm_compute. split; reflexivity. Qed.
+
+(* ---- on the faithful engine model (RModel/Engine.v), by erun_sound: the soundness half.  Whenever
+   the Reads of the engine end in io.EOF the bytes handed out are exactly the reference output,
+   whatever the Read sizes, the buffer size and the delivery schedule.  (The completeness half -- on a
+   strict stream some Read does return io.EOF -- is not yet a theorem of the engine model; it is a
+   theorem of the specification-level reader above and is what the per-Read correspondence run
+   exercises.) *)
+From Verif Require Import Engine EngineRefineSpecTop EngineRefineFinal EngineCorollaries.
+Theorem C02_engine_eof_means_whole_output_partial : forall data cs bufsize t reads,
+  bytes_ok data -> cut_of cs data ->
+  In REOF (map snd (fst (erun_ext bufsize cs t reads))) ->
+  status (Inflate.inflate [] data) = Done /\
+  results_bytes (fst (erun_ext bufsize cs t reads)) = out (Inflate.inflate [] data).
+Proof. exact engine_eof_only_if_complete. Qed.
+Print Assumptions C02_engine_eof_means_whole_output_partial.
+Theorem C02_engine_read_sizes_irrelevant_at_eof : forall data cs bufsize t reads1 reads2,
+  bytes_ok data -> cut_of cs data ->
+  In REOF (map snd (fst (erun_ext bufsize cs t reads1))) ->
+  In REOF (map snd (fst (erun_ext bufsize cs t reads2))) ->
+  results_bytes (fst (erun_ext bufsize cs t reads1)) = results_bytes (fst (erun_ext bufsize cs t reads2)).
+Proof. exact engine_read_sizes_irrelevant_at_eof. Qed.
+Print Assumptions C02_engine_read_sizes_irrelevant_at_eof.
